@@ -36,14 +36,16 @@ Definition ev_arg (a : option Z) : Z :=
 Definition is_some {T} (o : option T) : bool := match o with Some _ => true | None => false end.
 Definition or1 (o : option Z) : Z := match o with Some v => if v =? 0 then 1 else v | None => 1 end.
 
-(* fixes/C08-failed-motion-minimal.patch: the text-object functions
-   e E ge gE g_ j k return None when they fail, and the wrapper treats None
-   and an exclusive object with equal ends as "cancel the operator" *)
+(* Since fix ced036e the text-object functions e E ge gE g_ j k return None
+   when they fail (modelled as TO o true: the ghost object is what they
+   returned before), and the wrapper treats None and an exclusive object with
+   equal ends as "cancel the operator" *)
 Definition cancelled (o : tobj) (failed : bool) : bool :=
   failed || (is_excl (ttype o) && (tstart o =? tend o)).
 
-(* status 3 = outside the modelled sessions.  [patched] = false is /repo as it
-   is; true is /repo with the patch above (proposal, see Props/C08.v) *)
+(* status 3 = outside the modelled sessions.  [patched] = true is /repo as it
+   is (fix ced036e); false is the wrapper of the commit before it, kept for
+   the _pinned_refuted theorem only *)
 Definition key_step_gen (patched : bool) (s : kst) (key : kkey) : Z * kst :=
   let st := ks_vst s in
   let b := vbuf st in
@@ -93,7 +95,8 @@ Definition key_step_gen (patched : bool) (s : kst) (key : kkey) : Z * kst :=
   | KM m => motion m
   end.
 
-Definition key_step := key_step_gen false.
+Definition key_step := key_step_gen true.
+Definition key_step_pinned := key_step_gen false.
 
 Fixpoint run_keys_gen (patched : bool) (s : kst) (keys : list kkey) : Z * kst :=
   match keys with
@@ -103,7 +106,7 @@ Fixpoint run_keys_gen (patched : bool) (s : kst) (keys : list kkey) : Z * kst :=
       if (status =? 0) && negb (vins (ks_vst s')) then run_keys_gen patched s' r
       else match r with [] => (status, s') | _ => (if status =? 0 then 3 else status, s') end
   end.
-Definition run_keys := run_keys_gen false.
+Definition run_keys := run_keys_gen true.
 
 Definition init_ks (text : str) (cur : Z) : kst :=
   mkks (mkvst (mkbuf text cur) None None false) None None None None.
@@ -139,6 +142,4 @@ Definition run_C08_gen (patched : bool) (c : sx) : sx :=
   end.
 
 (* /repo as it is *)
-Definition run_C08 : sx -> sx := run_C08_gen false.
-(* /repo + fixes/C08-failed-motion-minimal.patch (used only by harness/c08_patched.py) *)
-Definition run_C08_patched : sx -> sx := run_C08_gen true.
+Definition run_C08 : sx -> sx := run_C08_gen true.
